@@ -241,6 +241,9 @@ def match_known(entries, v):
         if "ledger" in e and v.get("sig") is not None:
             led = load_ledger(e["ledger"])
             rc = led.get(sig_hash(v["sig"]))
+            if rc is None and e["ledger"].endswith(".ledger"):
+                # inputs recorded from the larger corpus of the thorough tier
+                rc = load_ledger(e["ledger"][:-len(".ledger")] + ".thorough.ledger").get(sig_hash(v["sig"]))
             if rc is not None and ("rc" not in e or e["rc"] == rc):
                 return e
         if "sig" in e and e["sig"] == v.get("sig"):
